@@ -65,3 +65,19 @@ def _stub_environment(rp, builder, args):
 
 for _f in ("_update_dependencies", "version", "fn_reference", "hash_rules", "_update_fn_reference"):
     PATCHES["memento:MementoFunction." + _f] = _stub_environment
+
+
+def _names_natives():
+    import inspect
+    return {"version_of": lambda mf: mf.version(), "callable_obj": lambda f: inspect.isfunction(f), "has_attr": hasattr, "normalized": _undecidable("normalized"),
+            "sig_of": inspect.signature, "keys_of": lambda m: m.keys(), "aslist": list, "astuple": tuple}
+
+
+_old_natives = natives
+
+
+def natives(rp, builder):   # noqa: F811
+    n = _old_natives(rp, builder)
+    if "names" in (rp.get("modules") or []):
+        n.update(_names_natives())
+    return n
